@@ -145,6 +145,42 @@ def check_acl(arg):
     return fails, 1
 
 
+def check_many(arg):
+    """several multi-port entries in one container: every one is split where it stood, nothing else moves or disappears"""
+    import cisco_acl
+    kinds, container = arg
+    lines, want = [], []
+    for i, k in enumerate(kinds):
+        if k == "m":        # two source ports
+            lines.append(f"permit tcp any eq {10 * i + 1} {10 * i + 2} any")
+            want += [f"permit tcp any eq {10 * i + 1} any", f"permit tcp any eq {10 * i + 2} any"]
+        elif k == "M":      # three destination ports
+            lines.append(f"deny udp any any eq {10 * i + 1} {10 * i + 2} {10 * i + 3}")
+            want += [f"deny udp any any eq {10 * i + j}" for j in (1, 2, 3)]
+        elif k == "s":
+            lines.append(f"permit tcp any any eq {10 * i + 5}")
+            want.append(lines[-1])
+        else:
+            lines.append(f"remark {'= ' if i == 0 else ''}note {i}")
+            want.append(lines[-1])
+    if container == "acegroup":
+        box = cisco_acl.AceGroup("\n".join(lines), platform="ios", port_nr=True)
+    else:
+        box = cisco_acl.Acl("\n".join(["ip access-list extended X"] + lines), platform="ios", port_nr=True)
+        if container == "acl-grouped":
+            box.group("=")
+    box.ungroup_ports()
+    flat = []
+    for o in box.items:
+        flat.extend(o.items if isinstance(o, cisco_acl.AceGroup) else [o])
+    got = [o.line for o in flat]
+    if got != want:
+        return [dict(key=f"bounded/{container}.ungroup_ports:many", what=f"after splitting {lines}: {got}, expected {want}", inputs=dict(lines=lines, container=container),
+                     cmd=("import sys; sys.path.insert(0, 'props'); import C19\n"
+                          f"fails, _ = C19.check_many({arg!r})\nprint([f['what'] for f in fails]); sys.exit(1 if fails else 0)\n"))], 1
+    return [], 1
+
+
 def main(chk):
     chk.lemmas(lemmas())
     t0 = time.time()
@@ -168,6 +204,18 @@ def main(chk):
             chk.finding(f["key"], f["what"], inputs=f["inputs"], key=f["key"])
     chk.add_bounded("Acl/AceGroup.ungroup_ports: pieces stand where the original stood", len(cases), len(cases), "multi-port entry at every position among <= 4 other items, flat and grouped",
                     viol, time.time() - t0, [list(cases[3])], exhaustive=True)
+    t0 = time.time()
+    import itertools
+    cases = [(ks, c) for n in range(1, 6) for ks in itertools.product("mMsr", repeat=n) for c in ("acl", "acl-grouped", "acegroup")]
+    res = pmap(check_many, cases)
+    viol = 0
+    for fails, _ in res:
+        for f in fails:
+            viol += 1
+            chk.finding(f["key"], f["what"], inputs=f["inputs"], cmd=f.get("cmd"), key=f["key"])
+    chk.add_bounded("Acl/AceGroup.ungroup_ports with several multi-port entries: each split where it stood, nothing lost or moved", len(cases), len(cases),
+                    "all lists of <= 5 items over {2-port entry, 3-port entry, single-port entry, remark} in a flat ACL, a grouped ACL and an AceGroup",
+                    viol, time.time() - t0, [list(cases[77])], exhaustive=True)
     chk.assumptions += ["Ace.ungroup_ports is object-graph code (copy(), items setter): its contract is checked natively, not proved"]
     return chk.finish("other",
                       "Deductive: lemma L19.replace (replacing a rule by adjacent same-action rules whose union is the rule keeps every first-match decision). Bounded "
